@@ -169,12 +169,20 @@ SNAP_POOLS = ["components", "mixtures", "compositions", "permeances", "perm_tupl
               "membranes", "curve_sets", "curves", "measurements", "functions", "vle", "pvs"]
 
 
+def _cwd():
+    from .canon import _unroot
+    try:
+        return _unroot(os.getcwd())
+    except OSError as e:
+        return "<%s>" % type(e).__name__
+
+
 def interpreter_state():
     """Interpreter-global state a modelling call has no business changing (reported as a probe,
     never as a violation by itself: the verdict needs a later call whose outcome differs)."""
     import sys
     import warnings
-    out = {"numpy.geterr": dict(sorted(numpy.geterr().items())), "recursionlimit": sys.getrecursionlimit(), "cwd": os.getcwd(),
+    out = {"numpy.geterr": dict(sorted(numpy.geterr().items())), "recursionlimit": sys.getrecursionlimit(), "cwd": _cwd(),
            "environ": cdigest(sorted(os.environ.items())), "warnings.filters": len(warnings.filters),
            "numpy.printoptions": cdigest(canon({k: v for k, v in numpy.get_printoptions().items() if k != "formatter"}))}
     try:
@@ -303,12 +311,20 @@ def independent_loss(f, points, with_error=False):
     return loss
 
 
+def _fval(v):
+    """A function value as plain data: float, or list of floats for a vector-valued function."""
+    if isinstance(v, numpy.ndarray) and v.ndim > 0:
+        return [float(q) for q in v.ravel()]
+    return float(v)
+
+
 class Executor:
     def __init__(self, init):
         self.root = init["root"]
         self.spec = init["world"]
         self.prop = init["prop"]
         self.W = build_world(self.root, self.spec)
+        os.chdir(self.root)      # the caller works in the project directory (relative membrane paths resolve against it)
         self.snap0 = snapshot_trees(self.W)
         self.snap0_digests = {k: cdigest(v) for k, v in self.snap0.items()}
         self.interp0 = interpreter_state()
@@ -340,6 +356,8 @@ class Executor:
                 return tuple(self.R(x) for x in v["$tuple"])
             if "$array" in v:
                 return numpy.array(v["$array"], dtype=float)
+            if "$npfloat" in v:
+                return numpy.float64(v["$npfloat"])
             if "$npint" in v:
                 return numpy.int64(v["$npint"])        # an order that comes out of numpy / pandas instead of being typed in
             if "$new_comp" in v:
@@ -522,7 +540,7 @@ class Executor:
             g = f * a["constant"]
             out = {"product": g}
             if op.get("grid"):
-                out["values"] = [[float(f(x, t)), float(g(x, t))] for (x, t) in op["grid"]]
+                out["values"] = [[_fval(f(x, t)), _fval(g(x, t))] for (x, t) in op["grid"]]
             return out
         if fn == "copy_object":
             import copy as _copy
@@ -539,6 +557,9 @@ class Executor:
                          nrtl_params=NRTLParameters(g12=n_["g12"], g21=n_["g21"], alpha12=n_["alpha12"]))
             return {"name": mx.name, "g12": mx.nrtl_params.g12}
         if fn == "load_membrane":
+            if op.get("rel"):
+                from pathlib import Path as _P
+                return Membrane.load(_P(op["dir"]))
             return build.load_membrane(self.root, op["dir"])
         if fn == "fn_new_call":
             f = build.function(op["spec"])
